@@ -16,6 +16,19 @@ pub trait SimKey: KeyBytes + Clone + Eq + Ord + Hash + Debug + Send + Sync + 'st
     }
 }
 
+/// length of a key that makes one WAL record larger than 8 KiB; sometimes larger than 64 KiB (beyond
+/// any 16-bit length somebody might assume for keys), rarely larger than 1 MiB (beyond any "no record
+/// is that large" bound somebody might put into the replay path only - seeded change C03-d)
+fn big_key_len(rng: &mut Rng, spread: u64) -> usize {
+    // (same draws as before the 1 MiB class existed, so that other runs keep their keys)
+    let n = if rng.chance(1, 3) { 65_536 + rng.below(5000) as usize } else { 9000 + rng.below(spread) as usize };
+    if n >= 65_536 && n % 4 == 0 {
+        1_048_576 + n % 3000
+    } else {
+        n
+    }
+}
+
 impl SimKey for String {
     const KT: KeyType = KeyType::Str;
     fn draw(rng: &mut Rng, big: bool) -> Self {
@@ -25,7 +38,7 @@ impl SimKey for String {
             6 if big => {
                 // a key that makes one WAL record larger than 8 KiB; sometimes larger than 64 KiB
                 // (beyond any 16-bit length somebody might assume for keys)
-                let n = if rng.chance(1, 3) { 65_536 + rng.below(5000) as usize } else { 9000 + rng.below(200) as usize };
+                let n = big_key_len(rng, 200);
                 let c = (b'a' + rng.below(26) as u8) as char;
                 std::iter::repeat(c).take(n).collect()
             }
@@ -47,7 +60,7 @@ impl SimKey for Vec<u8> {
             3 => vec![0, 0],
             4 => vec![0xc3, 0x28], // invalid UTF-8
             5 if big => {
-                let n = if rng.chance(1, 3) { 65_536 + rng.below(5000) as usize } else { 9000 + rng.below(100) as usize };
+                let n = big_key_len(rng, 100);
                 vec![rng.below(256) as u8; n]
             }
             _ => {
